@@ -44,7 +44,7 @@ ASSUMPTIONS = [
 TIMEOUT = {"quick": 500, "thorough": 2800}
 REQUIRED = {"scenarios": 16, "schedule_runs": 60, "rounds_decoded": 300, "explicit_swaps_checked": 150, "exchanges_accepted": 60,
             "exchanges_rejected": 30, "advance_calls_checked": 16, "shutdowns_checked": 60, "chains_compared_across_schedules": 150,
-            "cases:unsorted_ladder": 1, "cases:odd_chain_count": 2, "cases:single_chain": 1, "returned_rows_rederived": 2000}
+            "cases:unsorted_ladder": 1, "cases:odd_chain_count": 2, "cases:single_chain": 1, "returned_rows_rederived": 2000, "run_for_calls_checked": 8}
 
 
 def jobs(tier, seed):
@@ -238,6 +238,21 @@ def execute(spec, sch, rec, monitor, ctx, extra_swaps=0):
                             steps_sent = sum(e[3].get("advance_count", 0) for e in seg if e[1] == i and e[2] == "send" and isinstance(e[3], dict) and e[3].get("task") == "advance")
                             rec.check(g == nn and steps_sent == nn, "advance-wrong-number-of-steps",
                                       lambda: f"advance({nn}, swap_interval={si}): chain {i} grew by {g} (steps ordered over the pipe: {steps_sent})", ctx)
+                        check_rounds_consistency(rec, seg, n, ctx)
+                elif op == "run_for":
+                    secs, si = arg
+                    before = snapshot()
+                    mark = len(log)
+                    pt.run_for(minutes=secs / 60.0, swap_interval=si)
+                    seg = log[mark:]
+                    after = snapshot()
+                    if monitor:
+                        rec.count("run_for_calls_checked")
+                        rounds = sum(1 for e in seg if e[1] == 0 and e[2] == "send" and isinstance(e[3], dict) and e[3].get("task") == "send_position")
+                        growth = [int(b.chain_length) - int(a.chain_length) for a, b in zip(before, after)]
+                        rec.count("rounds_decoded", rounds)
+                        rec.check(len(set(growth)) == 1 and growth[0] == rounds * si and rounds >= 1, "timed-run-unequal-steps",
+                                  lambda: f"run_for(swap_interval={si}): chains grew by {growth} over {rounds} exchange rounds", ctx)
                         check_rounds_consistency(rec, seg, n, ctx)
                 elif op == "swap":
                     before = snapshot()
@@ -446,6 +461,12 @@ def run_job(job, rec):
             rec.count("chains_compared_across_schedules", n)
             rec.check(ok, "result-depends-on-schedule",
                       lambda: f"{sctx['scenario']} ({n} chains, {spec['ladder']} ladder): schedule '{sch['name']}' gives a different result from the unperturbed run: {why}", ctx)
+
+        # ---- a timed run (wall-clock budget, so not part of the schedule comparison): equal growth, consistent messages
+        if n >= 1 and k == 0:
+            tspec = dict(spec)
+            tspec["program"] = [("take_steps", 1), ("run_for", (0.25, int(rng.choice([1, 2, 5])))), ("swap", 0)]
+            execute(tspec, {"name": "unperturbed"}, rec, monitor=True, ctx={**sctx, "program": tspec["program"], "part": "timed run"})
 
         # ---- exchange calibration on a long sequence of explicit swaps (two-stage)
         if n >= 2 and k == 0:
